@@ -12,7 +12,9 @@ RULE = ("pipelines of 1..4 requests; one of them carries version x Connection va
         "keep-alive, Keep-Alive, upgrade, 'x, close', 'keep-alive, close', x-closed, foo, keep-alive;x, UPGRADE, ''}; every "
         "position; followed by further well-formed requests (which must be ignored after a final request and served otherwise) "
         "and optionally by garbage; client half-closing or not; the oracle (from the property text: 'contains' = substring) demands "
-        "delivery up to and including the first final request, an answer for each, then end-of-stream, or continued service")
+        "delivery up to and including the first final request, an answer for each, then end-of-stream, or continued service; "
+        "a final request whose announced body (streamed or expected) the client withholds and the application never asks for: "
+        "the answer and then end-of-stream must still reach a client that keeps its own sending side open")
 ASSUMPTIONS = ["FIN versus RST when unread input remains is kernel behaviour; a reset after the data counts as end-of-stream"]
 
 CONN = [None, "close", "Close", "keep-alive", "Keep-Alive", "upgrade", "x, close", "keep-alive, close", "x-closed", "foo",
@@ -67,12 +69,43 @@ def gen(tier, rng):
             yield build(rng, 2, 0, ver, conn, True, False, transport="t")
     for x in gen_close(tier, rng):
         yield x
+    for x in gen_final_withheld(tier, rng):
+        yield x
     # long-lived keep-alive connections: hundreds of small requests, nothing asks for a close
     for n, hdr in ((250, ""), (40, "User-Agent: Mozilla/5.0 (X11; Linux x86_64) AppleWebKit/537.36\r\nAccept: text/html,application/xhtml+xml;q=0.9,*/*;q=0.8\r\nAccept-Language: en-US,en;q=0.5\r\nCookie: " + "k=v; " * 40 + "\r\n")):
         stream = b"".join(("GET /k%d HTTP/1.1\r\nHost: h\r\n%s\r\n" % (i, hdr)).encode() for i in range(n))
         wu = [hx("/k%d" % i) for i in range(n)]
         extra = "wu=%s we=closed" % j(wu)
         yield cv_line(stream, [action_str([], respond_str(200, b"ok", True))], extra=extra), {"scenario": "long-keep-alive", "n": n}
+
+
+def gen_final_withheld(tier, rng):
+    """the final request of the connection announces a body that the library does not pre-read (Content-Length > 1024, or
+    Expect: 100-continue) and the client withholds it, waiting for the verdict with its sending side open; the application
+    answers without asking for the body: the answer must arrive AND the server must close its sending side (the client
+    reads to end-of-stream)"""
+    from convgen import cv_line, action_str
+    for i in range(16 if tier == "quick" else 160):
+        expect = rng.chance(1, 2)
+        cl = rng.choice([5, 1024, 1025, 70000]) if expect else rng.choice([1025, 5000, 70000])
+        ver, conn = rng.choice([("1.1", "close"), ("1.1", "Close"), ("1.0", None), ("1.1", "x, close")])
+        part = rng.choice([0, 0, 10]) if not expect else 0          # nothing, or the first bytes of the body
+        head = "POST /fw%d HTTP/%s\r\nHost: h\r\n%s%sContent-Length: %d\r\n\r\n" % (
+            i, ver, "Connection: %s\r\n" % conn if conn else "", "Expect: 100-continue\r\n" if expect else "", cl)
+        stream = b""
+        acts, wu, ws = [], [], []
+        for k in range(rng.below(3)):
+            stream += ("GET /fp%d.%d HTTP/1.1\r\nHost: h\r\n\r\n" % (i, k)).encode()
+            acts.append(action_str([], respond_str(200, b"ok", True)))
+            wu.append(hx("/fp%d.%d" % (i, k)))
+            ws.append("200")
+        stream += head.encode() + b"x" * part
+        fin, st = rng.choice([("D", "500"), ("R403:6e6f:1", "403"), ("R200:6f6b:1", "200")])
+        acts.append(action_str([], fin))
+        wu.append(hx("/fw%d" % i))
+        ws.append(st)
+        extra = "wu=%s ws=%s we=closed limit=2500" % (j(wu), j(ws))
+        yield cv_line(stream, acts, eof=False, extra=extra), {"scenario": "final-request-body-withheld", "expect": int(expect)}
 
 
 def gen_close(tier, rng):
